@@ -2,6 +2,7 @@
 # conforming image.  Also runs the pack-archive cases of C05 (gen/packtotal.py) in both build profiles.
 import os
 import struct
+import zlib
 
 import common
 from common import PropertyCheck, Case
@@ -14,6 +15,37 @@ GAME_FILE_CONTENT = [(b"FE9ArcTest1.bin", bytes([1, 2, 3, 4, 5])), (b"FE9ArcTest
 
 def big_files(n, bl):
     return [(("f%d" % i).encode(), bytes((i + j) % 251 for j in range(bl))) for i in range(n)]
+
+
+def huge_files(lens):
+    """the files of kind packhuge: name h<i>, body byte j = (7 i + j) mod 251 (built from the 251-byte period, fast)"""
+    out = []
+    for i, n in enumerate(lens):
+        period = bytes((7 * i + j) % 251 for j in range(251))
+        out.append((("h%d" % i).encode(), (period * (n // 251 + 1))[:n]))
+    return out
+
+
+def expected_image(files):
+    """The image fe9_arc::serialize must produce, from the format arithmetic alone - a Python re-statement of
+    Proofs/PackSerialize.v `image` (the layout C15_serialize_conforms proves): 8-byte header, one 16-byte row per file
+    (0, name address, file address, size), the NUL-terminated names, zero padding to a multiple of 32, then every body
+    followed by zero padding to the next multiple of 32.  Returns (image, [(name address, file address, size)])."""
+    n = len(files)
+    hl = 8 + 16 * n
+    names = b"".join(k + b"\0" for (k, _) in files)
+    names += bytes(-(hl + len(names)) % 32)
+    base = hl + len(names)
+    recs, pos, na, chunks = [], base, hl, []
+    for (k, b) in files:
+        recs.append((na, pos, len(b)))
+        na += len(k) + 1
+        pad = -(pos + len(b)) % 32
+        chunks.append(b)
+        chunks.append(bytes(pad))
+        pos += len(b) + pad
+    head = struct.pack(">IHH", 0x7061636B, n & 0xFFFF, 0) + b"".join(struct.pack(">IIII", 0, a & 0xFFFFFFFF, f & 0xFFFFFFFF, z & 0xFFFFFFFF) for (a, f, z) in recs)
+    return head + names + b"".join(chunks), recs
 
 
 def check_image(img, files):
@@ -48,7 +80,8 @@ class C15(PropertyCheck):
             "incl. prefixes of each other: image compared byte-exact with the extracted model, parse(serialize(x)) with x); layout "
             "(reference writer with knobs - names after bodies, permuted, gaps with junk, overlapping storage, shared name suffixes, "
             "alignment 1/4/32, junk in ignored fields - accepted by the extracted verified conforms_packb, then fe9_arc::parse compared "
-            "with the intended content); game-file (resources/test/FE9Arc.bin); big (thorough: 65535 files); pack-* (C05: random bytes, "
+            "with the intended content); game-file (resources/test/FE9Arc.bin); big (65535 files); too-many (65536, 70000 files: serialize must answer an error); huge (body sections of 16 MiB + 1 .. 33 MiB with a running length = 1 mod 32: "
+            "image length, CRC-32, round-trip flag and table rows against the layout arithmetic of Proofs/PackSerialize.v image - no model run at that size); pack-* (C05: random bytes, "
             "every truncation, boundary values in every field, wrong magic, flips - outcome category, parsed value, allocation bound, "
             "both profiles). Non-trivial = at least one file / input with the pack magic and a full header; distinct = distinct case line.")
     assumptions = [
@@ -113,6 +146,16 @@ class C15(PropertyCheck):
         # ---- many files (implementation + oracle only)
         for (n, bl) in ([(300, 1), (1000, 0), (32768, 0), (65535, 0)] if tier == "quick" else [(300, 1), (1000, 33), (65535, 0), (20000, 3)]):
             cases.append(Case("packbig %d %d" % (n, bl), "big"))
+        # ---- body sections beyond 16 MiB (2^24: where a length computed in f32 stops being exact; seeded C15-7), running length
+        #      = 1 (mod 32) right after a file; the image is not printed: length, CRC-32, round-trip flag and the table rows
+        M = 1 << 20
+        for lens in ([[16 * M + 1, 5], [8 * M + 1, 8 * M - 31, 13]] if tier == "quick" else
+                     [[16 * M + 1, 5], [8 * M + 1, 8 * M - 31, 13], [M] * 16 + [1, 7], [16 * M, 1], [16 * M + 2, 3], [32 * M + 1, 1], [32 * M + 2, 1]]):
+            cases.append(Case("packhuge " + " ".join(str(x) for x in lens), "huge"))
+        # ---- more files than the 16-bit count can hold: serialize must return an error (finding F26, repair 530f18c; before it
+        #      65536 files were written with count 0 and 70000 with count 4464)
+        for n in ((65536, 70000) if tier == "quick" else (65536, 65537, 70000, 131072)):
+            cases.append(Case("packbig %d 0" % n, "too-many"))
         # ---- (d) C05, pack part
         cases += packtotal.total_cases(rng, tier)
         return cases
@@ -134,6 +177,8 @@ class C15(PropertyCheck):
             fail = check_image(unB(ot[1]), files)
             if fail:
                 return fail
+            if expected_image(files)[0] != unB(ot[1]):
+                return "the image of %d files differs from the layout arithmetic (expected_image)" % n
             want = "ok" + packlib.entries_str(files)
             got = " ".join(ot[3:])
             if got != want:
@@ -148,6 +193,8 @@ class C15(PropertyCheck):
         if kind == "packbig":
             n, bl = int(toks[1]), int(toks[2])
             files = big_files(n, bl)
+            if n > 65535:
+                return None if impl_out == "err" else "serialize accepted %d files (the count field holds 16 bits): %s" % (n, impl_out[:60])
             ot = impl_out.split(" ")
             if ot[0] != "ok" or len(ot) != 3:
                 return "serialize of %d files failed: %s" % (n, impl_out[:80])
@@ -157,6 +204,14 @@ class C15(PropertyCheck):
             if ot[2] != "rt=1":
                 return "parse(serialize(x)) differs from x for %d files" % n
             return None
+        if kind == "packhuge":
+            lens = [int(x) for x in toks[1:]]
+            files = huge_files(lens)
+            img, recs = expected_image(files)
+            want = "ok len=%d crc=%08x rt=1 recs=%s" % (len(img), zlib.crc32(img) & 0xFFFFFFFF, "L" + ",".join(str(x) for r in recs for x in r))
+            if impl_out != want:
+                return "pack with a body section of %d bytes: want %s got %s" % (sum(lens), want[:160], impl_out[:160])
+            return None
         if kind in ("packparse", "packparsebig"):
             return packtotal.total_oracle(case, impl_out, profile)
         return "unknown kind " + kind
@@ -164,7 +219,7 @@ class C15(PropertyCheck):
     # ------------------------------------------------------------------ correspondence
     def agree(self, case, impl_out, model_out, profile):
         kind = case.line.split(" ", 1)[0]
-        if kind == "packbig":
+        if kind in ("packbig", "packhuge"):
             return model_out == "unmodelled"
         if kind == "packref":
             # the verified checker must accept what the reference writer wrote, and model = implementation
@@ -216,7 +271,10 @@ MANIFEST = dict(
     text="Theorems about an executable machine-level Gallina model of fe9_arc::parse / fe9_arc::serialize (Model/Pack.v) against a format "
          "relation conforms_pack written independently of both (Model/PackFormat.v): the parser returns exactly the files of every "
          "conforming image wherever names and bodies lie (both arithmetic modes); serialize of up to 65535 distinct NUL-free names whose image "
-         "fits 32 bits yields a conforming image with exact count, name addresses and sizes and every file on a 32-byte boundary; round trip "
+         "fits 32 bits SUCCEEDS and yields a conforming image with exact count, name addresses and sizes and every file on a 32-byte boundary; "
+         "whatever serialize returns Ok for conforms and parses back (C15_serialize_Ok_conforms, C15_round_trip_of_Ok: no size hypothesis); more than "
+         "65535 files or an image of 4 GiB or more is rejected with an error (C15_serialize_rejects_too_many / _too_large / _big_contents, "
+         "C15_serialize_Ok_iff; finding F26, repaired 530f18c); round trip "
          "as corollary (empty files, empty archive included); a verified boolean checker conforms_packb. All closed under the global context. "
          "The model is tied to /repo on every run: serialize byte-exact and parse(serialize(x)) on generated ordered maps, parse on images of "
          "an independent reference writer with layout knobs that the extracted conforms_packb accepted first, the game file, and (C05 part) "
@@ -224,8 +282,10 @@ MANIFEST = dict(
     note=TB + "Domain of 'Shift-JIS-representable names': names s with decode(encode s) = s - U+00A5, U+203E, U+2212 encode without error "
               "but come back as U+005C, U+007E, U+FF0D and are outside it. "
               "Modelled, not verified: encoding_rs Shift_JIS (A-codec; names travel in encoded form, losslessness checked per name by the "
-              "harness), Cursor / IndexMap (A-std), usize sums in serialize cannot overflow (A-usize). serialize truncates silently above "
-              "65535 files or 4 GiB (`as u16` / `as u32`): stated as hypotheses, outside the property. Defects F7 (todo!() on a wrong "
-              "magic) and F8 (buffer sized by an unchecked field) were repaired in /repo; the model describes the repaired code.",
+              "harness), Cursor / IndexMap (A-std), usize sums in serialize cannot overflow (A-usize). Defects F7 (todo!() on a wrong "
+              "magic), F8 (buffer sized by an unchecked field) and F26 (serialize truncated the count to 16 bits and sizes to 32 bits silently: "
+              "65536 files -> count 0, a file of 2^32 bytes -> size 0; now an error) were repaired in /repo; the model describes the repaired code. "
+              "The 65536 / 70000-file rejections run on the real library in every quick run (stream too-many); the 4 GiB side is proved on the model "
+              "only (the reviewer's probe needs ~9 GiB).",
     technique="Coq proof (format relation + list/codec lemmas, lia) + extracted-model differential check + verified format checker as oracle filter",
     ref="DESIGN.md section 6 (C15), section 2 (C05)")
